@@ -70,6 +70,28 @@ def Header.codecName (h : Header) : R String :=
 /-- `is_avro`: the first four bytes are the magic -/
 def isAvro (bs : Bytes) : Bool := bs.take 4 == MAGIC
 
+/-- what `_is_appendable` asks of the stream -/
+structure StreamFacts where
+  seekable : Bool
+  pos : Nat
+  isStdout : Bool        -- `getattr(file_like, "name", "") == "<stdout>"`
+  readable : Bool
+
+/-- `_is_appendable(file_like)` (`.error .value`: "you must use the 'a+' mode, not just 'a'") -/
+def isAppendable (f : StreamFacts) : R Bool :=
+  if f.seekable && f.pos != 0 then
+    if f.isStdout then .ok false
+    else if f.readable then .ok true
+    else .error .value
+  else .ok false
+
+/-- `Writer.__init__` on an appendable stream: the header is read again; the sync marker and the codec name are the
+    file's own — the `schema`, `codec`, `sync_marker` and `metadata` arguments play no part -/
+def reopen (out : Bytes) : R (Bytes × String) := do
+  let (h, _) ← readHeader out
+  let cn ← h.codecName
+  pure (h.sync, cn)
+
 /-! ### writing -/
 
 /-- `encoder.write_long(n)` for a count / length -/
